@@ -307,8 +307,113 @@ def rule_header_cascade(ctx):
            "a header whose extended length / mask is not yet buffered is consumed or accepted", fn.loc())
 
 
-def rule_close_payload(ctx):
-    ctx.rule("C02.2-close-payload")
+def close_code_cells(ctx):
+    """(domain, remembered): the status codes around every integer literal onCloseFrame (and the helpers it calls) compares the code with, and
+    a function code -> what onCloseFrame remembers as the peer's close code once its validation prefix is through (abstract evaluation,
+    sa.core.tiny; the failure sinks answer "closing handshake started", i.e. processing continues)."""
+    from ..core.tiny import Tiny, Sym
+    from .common import inline_private
+    wsp = ctx.program.cls(WSP)
+    ocf = wsp.methods["onCloseFrame"]
+    allowed = ctx.program.class_const(wsp, "CLOSE_STATUS_CODES_ALLOWED")
+    inl = inline_private(ctx, wsp, exclude=("_protocol_violation", "_invalid_payload", "_fail_connection", "sendCloseFrame", "dropConnection", "_max_message_size_exceeded",
+                                            "onCloseFrame", "_connectionLost"))
+    body0 = [x for x in ocf.node.body if not (isinstance(x, ast.Expr) and isinstance(x.value, ast.Constant))]
+    lits = set(allowed) | {0, 999, 1000, 1004, 1005, 1006, 1011, 1015, 1016, 2999, 3000, 3999, 4000, 4999, 5000, 65535}
+    srcs = [ocf.node] + [f_.node for nm_ in {c_.func.attr for c_ in ast.walk(ocf.node) if isinstance(c_, ast.Call) and isinstance(c_.func, ast.Attribute)}
+                         for f_ in [ctx.program.lookup_method(wsp, nm_)] if f_ is not None and inl(nm_) is not None]
+    for sn in srcs:
+        lits |= {x.value for x in ast.walk(sn) if isinstance(x, ast.Constant) and isinstance(x.value, int) and not isinstance(x.value, bool) and 0 <= x.value <= 65535}
+    domain = sorted({c_ for l_ in lits for c_ in (l_ - 1, l_, l_ + 1) if 0 <= c_ <= 65535})
+
+    def remembered(code):
+        env = {"self": Sym("protocol"), ocf.params()[1]: code, ocf.params()[2]: None, "WebSocketProtocol.CLOSE_STATUS_CODES_ALLOWED": list(allowed),
+               "WebSocketProtocol.CLOSE_STATUS_CODE_NORMAL": ctx.program.class_const(wsp, "CLOSE_STATUS_CODE_NORMAL"), "self.CLOSE_STATUS_CODES_ALLOWED": list(allowed),
+               "self.remoteCloseCode": None, "self.remoteCloseReason": None}
+        t = Tiny(env, default_call=lambda f_, a_, k_=None: False if f_ in ("self._protocol_violation", "self._invalid_payload") else Sym(f"<{f_}>"), inline_self=inl)
+        r_ = t.run(body0, stop=lambda st: any(isinstance(x, ast.Attribute) and norm.text(x) == "self.state" for x in ast.walk(st)))
+        if r_[0] != "stop":
+            return ("ended", r_)
+        return t.env.get("self.remoteCloseCode", t.env["self"].attrs.get("remoteCloseCode"))
+    return domain, remembered
+
+
+def rule_frame_end(ctx):
+    """"delivers exactly the messages RFC 6455 assigns": the fragmentation state may only change at data frames.  onFrameEnd is evaluated
+    cell-wise (sa.core.tiny) over (control / data frame, FIN, text validation state, what the invalid-payload sink answers): a control
+    frame between two fragments leaves the message open; a data frame ends the message exactly when it carries FIN."""
+    from ..core.tiny import Tiny, Sym
+    from .common import inline_private
+    import itertools
+    ctx.rule("C02.8-message-ends-at-final-data-frame")
+    wsp = ctx.program.cls(WSP)
+    fn = wsp.methods["onFrameEnd"]
+    ctx.analysed(fn)
+    S_OPEN = ctx.program.class_const(wsp, "STATE_OPEN")
+    inl = inline_private(ctx, wsp, exclude=("_onMessageFrameEnd", "_onMessageEnd", "_invalid_payload", "_protocol_violation", "_cancelAutoPingTimeoutCall", "_fail_connection",
+                                            "_onMessageFrameData", "_onMessageBegin", "_onMessageFrameBegin", "_max_message_size_exceeded"))
+    body = [x for x in fn.node.body if not (isinstance(x, ast.Expr) and isinstance(x.value, ast.Constant))]
+    probs, n = [], 0
+    try:
+        for opcode, fin, inside, utf8_open, sink in itertools.product((0, 1, 2, 8, 9, 10), (True, False), (True, False), (True, False), (True, False)):
+            control = opcode > 7
+            if control and not fin:
+                continue  # refused at the header
+            if not control and not inside:
+                continue  # a data frame is always inside a message once its header was accepted
+            if utf8_open and (control or not fin):
+                continue
+            if sink and not utf8_open:
+                continue
+            calls = []
+
+            def oracle(f_, a_, k_=None):
+                if f_ in ("self.processControlFrame", "self._onMessageFrameEnd", "self._onMessageEnd"):
+                    calls.append(f_[5:])
+                    return None
+                if f_ == "self._invalid_payload":
+                    calls.append("_invalid_payload")
+                    return sink
+                return Sym(f"<{f_}>")
+            frame = Sym("frame", opcode=opcode, fin=fin, rsv=0, length=3)
+            env = {"self": Sym("protocol"), "self.current_frame": frame, "self.inside_message": inside, "self.state": S_OPEN, "WebSocketProtocol.STATE_OPEN": S_OPEN,
+                   "self.logFrames": False, "self.trafficStats": Sym("stats", incomingWebSocketFrames=0, incomingWebSocketMessages=0), "self.autoPingTimeoutCall": None,
+                   "self.autoPingRestartOnAnyTraffic": True, "self._isMessageCompressed": False, "self.utf8validateIncomingCurrentMessage": utf8_open or (opcode == 1 and fin),
+                   "self.utf8validateLast": [True, not utf8_open, 0, 0], "self.control_frame_data": [], "self.frame_data": [], "self.log": Sym("log"),
+                   "self._perMessageCompress": None}
+            t = Tiny(env, default_call=oracle, inline_self=inl, opaque_globals=True)
+            r = t.run(body)
+            n += 1
+            tag = f"{'control' if control else 'data'} frame (opcode {opcode}), FIN={fin}, message open before={inside}" + (", text ends inside a code point" if utf8_open else "")
+            if r[0] == "raise":
+                probs.append(f"{tag}: raises {r[1]}")
+                continue
+            after = t.env.get("self.inside_message", t.env["self"].attrs.get("inside_message"))
+            failed = utf8_open and sink
+            if control:
+                if after != inside:
+                    probs.append(f"{tag}: message open afterwards={after} -- a control frame between fragments must not touch the fragmentation state")
+                if calls != ["processControlFrame"]:
+                    probs.append(f"{tag}: calls {calls}, expected the control frame to be processed and nothing else")
+            else:
+                want_calls = ["_onMessageFrameEnd"] + (["_invalid_payload"] if utf8_open else []) + (["_onMessageEnd"] if fin and not failed else [])
+                if calls != want_calls:
+                    probs.append(f"{tag}: calls {calls}, expected {want_calls}")
+                if not failed and after != (not fin):
+                    probs.append(f"{tag}: message open afterwards={after}, expected {not fin}")
+            if failed:
+                if not (r[0] == "return" and r[1] is False):
+                    probs.append(f"{tag}: the connection was dropped but processing continues ({r[0]} {r[1]})")
+            elif t.env.get("self.current_frame", 0) is not None:
+                probs.append(f"{tag}: the finished frame stays current")
+    except AnalysisError as e:
+        raise AnalysisError(f"[C02.8-message-ends-at-final-data-frame] onFrameEnd outside the modelled subset: {e}")
+    ctx.ob(f"onFrameEnd: a message ends exactly at its final data frame; control frames leave the fragmentation state alone [{n} cells]", not probs, "; ".join(probs[:3]), fn.loc())
+    ctx.require(n >= 15, f"only {n} cells")
+
+
+def rule_close_payload(ctx, rule_id="C02.2-close-payload"):
+    ctx.rule(rule_id)
     an = get_analysis(ctx)
     wsp = ctx.program.cls(WSP)
     allowed = ctx.program.class_const(wsp, "CLOSE_STATUS_CODES_ALLOWED")
@@ -332,21 +437,64 @@ def rule_close_payload(ctx):
             tb = [m for m, lab in n.succ if lab and lab[0] == "T"]
             if any(any(self_call(c, "_protocol_violation") for c in node_calls(m)) for m in tb):
                 tests.append(n)
-    ctx.require(len(tests) == 1, f"expected exactly one invalid-close-code test in onCloseFrame, found {len(tests)}")
-    pred = compile_predicate(tests[0].ast, ocf.params()[1], res)
-    bad = [c for c in range(0, 65536) if pred(c) == rfc6455.close_code_valid_reference(c, aset)]
+    from ..core.tiny import Tiny, Sym, Buf, TinyRaise
+    from .common import inline_private
+    inl = inline_private(ctx, wsp, exclude=("_protocol_violation", "_invalid_payload", "_fail_connection", "sendCloseFrame", "dropConnection", "_max_message_size_exceeded",
+                                            "onCloseFrame", "_connectionLost"))
+    body0 = [x for x in ocf.node.body if not (isinstance(x, ast.Expr) and isinstance(x.value, ast.Constant))]
+    NORMAL0 = ctx.program.class_const(wsp, "CLOSE_STATUS_CODE_NORMAL")
+
+    def reads_state0(st):
+        return any(isinstance(x, ast.Attribute) and norm.text(x) == "self.state" for x in ast.walk(st))
+
+    def cell_pred(code):
+        """is the status code reported as a protocol violation? (abstract evaluation of the method's prefix, helpers evaluated in place)"""
+        hit = []
+
+        def default(f_, a_, k_=None):
+            if f_ == "self._protocol_violation":
+                hit.append(1)
+                return True
+            return Sym(f"<{f_}>")
+        env = {"self": Sym("protocol"), ocf.params()[1]: code, ocf.params()[2]: None, "WebSocketProtocol.CLOSE_STATUS_CODES_ALLOWED": list(allowed),
+               "WebSocketProtocol.CLOSE_STATUS_CODE_NORMAL": NORMAL0, "self.CLOSE_STATUS_CODES_ALLOWED": list(allowed)}
+        try:
+            r_ = Tiny(env, default_call=default, inline_self=inl).run(body0, stop=reads_state0)
+        except AnalysisError as e:
+            raise AnalysisError(f"[C02.2-close-payload] onCloseFrame outside the modelled subset: {e}")
+        if r_[0] == "raise":
+            raise TypeError(r_[1])
+        return bool(hit)
+    if len(tests) == 1:
+        pred = compile_predicate(tests[0].ast, ocf.params()[1], res)
+        domain = range(0, 65536)
+        where = ocf.loc(tests[0].ast)
+        how = "over 0..65535"
+    else:
+        # the test is not a single comparison chain on the code (extracted helper, early returns ...): the prefix is evaluated cell-wise.  The
+        # verdict is piecewise constant between the integer literals the code is compared with, so every literal of the method, of the helpers
+        # it calls and of the allowed list is tried with its two neighbours (plus the RFC's own range ends)
+        lits = set(aset) | {0, 999, 1000, 1004, 1005, 1006, 1011, 1015, 1016, 2999, 3000, 3999, 4000, 4999, 5000, 65535}
+        srcs = [ocf.node] + [f_.node for nm_ in {c_.func.attr for c_ in ast.walk(ocf.node) if isinstance(c_, ast.Call) and isinstance(c_.func, ast.Attribute)}
+                             for f_ in [ctx.program.lookup_method(wsp, nm_)] if f_ is not None and inl(nm_) is not None]
+        for sn in srcs:
+            lits |= {x.value for x in ast.walk(sn) if isinstance(x, ast.Constant) and isinstance(x.value, int) and not isinstance(x.value, bool) and 0 <= x.value <= 65535}
+        domain = sorted({c_ for l_ in lits for c_ in (l_ - 1, l_, l_ + 1) if 0 <= c_ <= 65535})
+        pred = cell_pred
+        where = ocf.loc()
+        how = f"on the {len(domain)} codes around every literal the code is compared with"
+    bad = [c for c in domain if pred(c) == rfc6455.close_code_valid_reference(c, aset)]
     ctx.ob("onCloseFrame invalid-code predicate == RFC 7.4.2 over 0..65535", not bad,
-           f"{len(bad)} codes judged wrongly, e.g. {bad[:6]}", ocf.loc(tests[0].ast))
+           f"{len(bad)} codes judged wrongly ({how}), e.g. {bad[:6]}", where)
     # code None (empty close payload) is not a violation
     try:
         none_bad = pred(None)
     except TypeError:
         none_bad = True
-    ctx.ob("empty close payload (code None) accepted", none_bad is False, "code None is treated as invalid or crashes the predicate", ocf.loc(tests[0].ast))
+    ctx.ob("empty close payload (code None) accepted", none_bad is False, "code None is treated as invalid or crashes the predicate", where)
     # ---- the validation prefix of onCloseFrame, decided cell-wise -------------------------------------------------------------
     # over (status code absent / legal / reserved) x (reason absent / present) x (validator verdict: valid?, ends on a code point?) x
     # (what the two failure sinks answer: True = connection dropped at once, False = closing handshake started)
-    from ..core.tiny import Tiny, Sym, Buf, TinyRaise
     import itertools
     body = [x for x in ocf.node.body if not (isinstance(x, ast.Expr) and isinstance(x.value, ast.Constant))]
     P_CODE, P_RAW = ocf.params()[1], ocf.params()[2]
@@ -376,7 +524,7 @@ def rule_close_payload(ctx):
                 return Sym(f"<{f_}>")
             env = {"self": Sym("protocol"), P_CODE: code, P_RAW: raw, "WebSocketProtocol.CLOSE_STATUS_CODES_ALLOWED": list(allowed),
                    "WebSocketProtocol.CLOSE_STATUS_CODE_NORMAL": NORMAL, "self.remoteCloseCode": "stale", "self.remoteCloseReason": "stale"}
-            t = Tiny(env, default_call=default)
+            t = Tiny(env, default_call=default, inline_self=inl)
             r = t.run(body, stop=reads_state)
             bad_code = code is not None and not rfc6455.close_code_valid_reference(code, aset)
             cell = (f"status code {code}, reason {'present' if has_reason else 'absent'}" + (f" (validator says valid={v0}, ends on a code point={v1})" if has_reason else "") +
@@ -662,6 +810,7 @@ def rule_delivery_gate(ctx):
 
 
 def run(ctx):
+    rule_frame_end(ctx)
     rule_header_cascade(ctx)
     rule_close_payload(ctx)
     rule_utf8_policy(ctx)
